@@ -54,9 +54,7 @@ func replayApiRow(c *Check, row *Row) {
 		mode = "noopt"
 	}
 	vars, _ := rowVars(&Row{Vars: r.Vars})
-	ctx, cancel := context.WithTimeout(context.Background(), 5*time.Second)
-	defer cancel()
-	m, err := newMachine(src, vars, parseFns(r.Fns), r.Optimise, ctx)
+	m, err := newMachine(src, vars, parseFns(r.Fns), r.Optimise, nil)
 	if err != nil {
 		c.disagree(&Disagreement{Kind: "prepare-failed", Script: src, Mode: mode, Expected: "accepted", Got: err.Error(), Row: row.Raw})
 		return
@@ -159,12 +157,13 @@ func driverExpectation(cs driverCase, optimise bool) string {
 			return "Error parsing JSON"
 		}
 	}
-	ctx, cancel := context.WithTimeout(context.Background(), 400*time.Millisecond)
-	defer cancel()
-	m, err := newMachine(cs.script, nil, nil, optimise, ctx)
+	// no wall clock here: a script that never ends is cut off after a number of instructions
+	m, err := newMachine(cs.script, nil, nil, optimise, newResetCtx())
 	if err != nil {
 		return "Error compiling:"
 	}
+	m.countSteps(2000000)
+	defer m.release()
 	o := m.exec(obj)
 	if o.Panic != nil {
 		return "PANIC"
@@ -204,7 +203,12 @@ func checkDriver(c *Check, cases []driverCase) {
 			if cs.doc != "" {
 				_ = os.WriteFile(jf, []byte(cs.doc), 0o644)
 			}
-			for _, flags := range [][]string{{}, {"-no-optimizer"}, {"-timeout", "400ms"}, {"-no-optimizer", "-timeout", "400ms"}} {
+			// a script that ends is given a deadline it cannot miss on a loaded machine; one that never ends a short one
+			dl := "10s"
+			if strings.Contains(cs.script, "while ( true )") {
+				dl = "400ms"
+			}
+			for _, flags := range [][]string{{}, {"-no-optimizer"}, {"-timeout", dl}, {"-no-optimizer", "-timeout", dl}} {
 				if strings.Contains(cs.script, "while ( true )") && len(flags) < 2 {
 					continue // without a deadline this script rightly never ends
 				}
